@@ -258,7 +258,12 @@ def build_stack(world, wspec):
         stub = (ScriptedChild if wspec.get("stub_inherits") else ScriptedClient)(wspec.get("script") or [])
         stub.falsy = bool(wspec.get("stub_falsy"))
         world.stub = stub
-        return _retry_mod.RetryingClient(stub, **rk)
+        rc = _retry_mod.RetryingClient(stub, **rk)
+        if wspec.get("stub_late"):
+            # a callable the application hangs on the wrapped client AFTER wrapping it: reachable through the
+            # wrapper, but not among the names the wrapper saw at construction
+            stub.late_op = stub.op
+        return rc
     if stack == "retrying":
         rk = {k: codec.dec(v) for k, v in (wspec.get("retry_kwargs") or {}).items()}
         inner_kind = wspec.get("inner", "client")
